@@ -906,6 +906,7 @@ func c19Chan(r *Run) {
 	c19CtxCheck(r, "chan.ctx.write", func(ctx context.Context) error { return b.Write(ctx, &Rpc{Id: 1}) })
 	c19ChanCancelledRead(r)
 	c19ChanObs(r)
+	c19ChanSecondWriter(r)
 }
 
 // ---------------------------------------------------------------------------
@@ -975,6 +976,7 @@ func c19Ws(r *Run) {
 	p.Close()
 
 	c19WsRejects(r, rng)
+	c19WsConcurrentWriters(r)
 
 	// blocked Read
 	if p, err = c19NewWsPair(); err == nil {
